@@ -652,6 +652,9 @@ func (s *state) lagPhase() bool {
 			}
 			res.Count("calls", 1)
 			res.Count("lag_family/calls_above_filter_tip", 1)
+			if w.Svc.ConnectedCount() == 0 {
+				res.Count("lag_family/calls_ending_with_no_peer_connected", 1)
+			}
 			labels, pos, reqs := d.RoundServed()
 			mut := "none-served"
 			if len(labels) > 0 {
@@ -756,7 +759,11 @@ func (s *state) checkCache(when string, rd Round) {
 				fmt.Sprintf("the filter cache holds an entry for block height %d, above the committed filter-header tip %d: no committed header exists it could have been verified against",
 					lagNode.Height, len(committed)-1), wit)
 		case node == nil && lagNode != nil:
-			if why := verify(v.Filter, lagNode, committed); v == nil || why != "" {
+			var cf *gcs.Filter
+			if v != nil {
+				cf = v.Filter
+			}
+			if why := verify(cf, lagNode, committed); why != "" {
 				wit["height"] = lagNode.Height
 				s.violate(evid.Sig("c05/cached-unverified", mut),
 					fmt.Sprintf("the filter cache holds, for block height %d, a filter that does not verify: %s", lagNode.Height, why), wit)
